@@ -78,6 +78,28 @@ def gen_ops(rng, n, vals, big):
                 ops.append("rd")
             else:
                 ops.append("isp:%d" % v); size_guess += 1
+        # arguments that are references into the Queue's own storage; exact-fit shrinking; the contiguous pieces
+        if rng.random() < 0.2:
+            r3 = rng.random()
+            i2 = rng.choice([0, 1, max(0, size_guess - 1), size_guess // 2, size_guess])
+            if r3 < 0.15:
+                ops.append("atr:%d" % i2); size_guess += 1
+            elif r3 < 0.30:
+                ops.append("ahr:%d" % i2); size_guess += 1
+            elif r3 < 0.45:
+                ops.append("iar:%d:%d" % (idx, i2)); size_guess += 1
+            elif r3 < 0.52:
+                ops.append("rpr:%d:%d" % (idx, i2))
+            elif r3 < 0.58:
+                ops.append("rar:%d" % i2)
+            elif r3 < 0.72:
+                ops.append("stf:%d" % rng.choice([0, 0, 0, 1, 2, 3, 5]))
+            elif r3 < 0.82:
+                ops.append("eca:%d" % rng.choice([0, 1, 1, 2, 3, 6]))
+            elif r3 < 0.87:
+                ops.append("rpa:%d" % v)
+            else:
+                ops.append("gap")
     return ops
 
 
@@ -105,8 +127,10 @@ def gen_ops2(rng, n, vals, big):
             ops.append("cq:%d" % t); sz[t] = sz[1 - t]
         elif r < 0.75:
             ops.append("as:%d" % t); sz[t] = sz[1 - t]
-        elif r < 0.78:
+        elif r < 0.77:
             ops.append("eq")
+        elif r < 0.78:
+            ops.append("cmp:%d" % t)
         elif r < 0.80:
             ops.append("stw:%d" % t)
         elif r < 0.82:
@@ -142,8 +166,10 @@ class CHECK(vlib.Check):
                 "AddTailMulti/AddHeadMulti/InsertItemsAt (array forms and Queue forms incl. a Queue passed as "
                 "its own argument), CopyFrom, operator=, Remove*InstanceOf, the unused in-object array, and on two queues: "
                 "SwapContents/SwapContentsAux, Plunder (move), operator==, StartsWith/EndsWith. "
+                "arguments that are references into the Queue's own storage (AddTail(q[i]) etc.), ShrinkToFit/EnsureCanAdd, "
+                "ReplaceAllItems, GetArrayPointer, lexicographic comparison. "
                 "Effect level in the model: Sort/Merge, Normalize's rotation, RemoveAllInstancesOf's compaction loop. "
-                "Not modelled: AdoptRawDataArray/ReleaseRawDataArray, HashCode/CalculateChecksum, lexicographic comparison.")
+                "Not modelled: AdoptRawDataArray/ReleaseRawDataArray, HashCode/CalculateChecksum, constructors other than the default one.")
     premises = ["memory safety and object lifetime of the C++ (observed by ASan/UBSan in the harness only)",
                 "indices/sizes below 2^32 (uint32 wrap-around of counts is not modelled)"]
     rule = ("operation scripts over Queue<int> (trivial) and Queue<Tracked> (owning) generated from random.Random(seed); "
@@ -206,7 +232,16 @@ class CHECK(vlib.Check):
                     for o in ("ahq:0:1:0:5000", "ahq:0:1:1:2", "atq:0:1:0:5000", "atq:0:1:1:1", "iiq:0:1:1:0:5000", "iiq:0:1:0:1:2",
                               "iiq:0:1:9:0:2", "ahq:0:0:0:5000", "atq:0:0:1:2", "iiq:0:0:1:0:5000", "stw:0", "enw:0", "stw:1", "enw:1"):
                         pre = (["es:%d:0:0:0" % (3 * k + 2)] if spare else []) + ["at:%d" % (i + 1) for i in range(k)]
-                        out.append(("directed2", kind + "|" + ";".join(pre + ["b.at:1", "b.at:2", o, "eq"])))
+                        out.append(("directed2", kind + "|" + ";".join(pre + ["b.at:1", "b.at:2", o, "eq", "cmp:0", "cmp:1"])))
+        # directed: a full ring (no unused slot) with an argument that lives in the ring itself -> the reallocation must not
+        # read the argument from the freed array; exact-fit ShrinkToFit at every count around the in-object size
+        for kind in "TO":
+            for k in (1, 2, 3, 4, 6, 7):
+                fillup = ["at:%d" % (i + 1) for i in range(k)]
+                for pre in ([], ["rh", "at:9"], ["ah:8", "rt"]):
+                    for o in ("stf:0;atr:0", "stf:0;ahr:%d" % (k - 1), "stf:0;iar:1:0", "stf:0;iar:%d:%d" % (k, k - 1), "stf:0;rar:0", "stf:1;atr:0;atr:0",
+                              "stf:0;gap", "gap;nm;gap", "stf:0;eca:0;eca:1", "rpa:5;stf:2;es:%d:1:0:0" % (k + 3)):
+                        out.append(("directed", kind + "|" + ";".join(fillup + pre + [o, "g:0"])))
         return out
 
     def nontrivial(self, case):
